@@ -156,7 +156,7 @@ def run_case(case, ctx):
         ctx.transitions += 1
         ctx.states += 1
         result = exc = None
-        with ctx.watch(case, 30):
+        with ctx.watch(case, 120):
             with monitors.armed() as events:
                 try:
                     result = _parse(entry, doc, d, case.get("handle", "text"))
